@@ -305,7 +305,10 @@ func (w *govWorld) txVote() *txInfo {
 }
 
 func (w *govWorld) valKey(k *simtm.Key) []byte {
-	switch w.r.C.Weighted([]int{6, 2, 1, 1}, "valkey") {
+	switch w.r.C.Weighted([]int{12, 4, 2, 2, 1}, "valkey") {
+	case 4:
+		// the placeholder's own key: power of a checked-in keyper and of the missing ones on one entry
+		return []byte(app.NonExistentValidator.Ed25519pubkey)
 	case 0:
 		return simtm.DetEd25519("val-" + k.Name)
 	case 1:
